@@ -33,7 +33,7 @@ class Unit:
     """one function under contract, discharged in one CBMC run"""
     def __init__(self, name, inst, target, mode='bp', replace=(), unwind=None, extra=(), bounded=None, harness=None,
                  uchecks=False, timeout=None, clause=None, defines=(), object_bits=None, nondet_static=False, no_canary=False,
-                 covers=None):
+                 covers=None, unwind_loops=None, tier='quick', lemma=None):
         self.name = name; self.inst = inst; self.target = target; self.mode = mode
         self.replace = list(replace); self.unwind = unwind; self.extra = list(extra)
         self.bounded = bounded          # None = unbounded proof; else text stating the bound
@@ -45,6 +45,10 @@ class Unit:
         self.object_bits = object_bits
         self.no_canary = no_canary
         self.covers = covers
+        self.unwind_loops = dict(unwind_loops or {})   # {regex on C function name: N}: code loops WITHOUT contract that are
+                                                       # unwound completely before dfcc (constant trip count; else set bounded=)
+        self.tier = tier
+        self.lemma = lemma
 
 class Lemma:
     def __init__(self, name, file, kind='lean', clause=None):
@@ -164,9 +168,31 @@ class Run:
             if unit.mode == 'uf': defs.append('-DVERIF_UF')
             rc, out, err, dt = sh(['goto-cc'] + defs + ['-I', VERIF, hc, '-o', os.path.join(ud, 'h.gb')], timeout=300)
             if rc != 0: raise Undecided('goto-cc failed for %s: %s' % (unit.name, (err + out)[-3000:]))
+            # code loops without a loop contract must be unwound before dfcc (constant-trip loops only; see README)
+            rc, out, err, dt = sh(['goto-instrument', '--show-loops', os.path.join(ud, 'h.gb')], timeout=120)
+            fns = info['meta']['functions']
+            uws = []; res['unwound_code_loops'] = []
+            for m in re.finditer(r'^Loop (\S+)\.(\d+):\n\s+file (\S+) line (\d+) function (\S+)', out, re.M):
+                lf, lk, lfile, lline = m.group(1), int(m.group(2)), m.group(3), int(m.group(4))
+                if lf not in fns: continue          # spec-header function (pre_/post_/spec_): unwound by cbmc below
+                f = fns[lf]
+                clines = set(l[2] for l in f['loops'] if l[0] in f.get('contract_loops', []))
+                if lline in clines: continue
+                n = None
+                for rx, k in unit.unwind_loops.items():
+                    if re.search(rx, lf): n = k
+                if n is None:
+                    raise Undecided('code loop without loop contract: %s.%d (%s:%d); add a contract or list it in unwind_loops' % (lf, lk, lfile, lline))
+                uws.append('%s.%d:%d' % (lf, lk, n))
+                res['unwound_code_loops'].append('%s.%d (%s:%d) x%d' % (lf, lk, os.path.basename(lfile), lline, n))
+            src_gb = os.path.join(ud, 'h.gb')
+            if uws:
+                rc, out, err, dt = sh(['goto-instrument', '--unwindset', ','.join(uws), '--unwinding-assertions', src_gb, os.path.join(ud, 'hu.gb')], timeout=300)
+                if rc != 0: raise Undecided('goto-instrument --unwindset failed: %s' % (err + out)[-1500:])
+                src_gb = os.path.join(ud, 'hu.gb')
             gi = ['goto-instrument', '--dfcc', 'main', '--enforce-contract', cname]
             for r in reps: gi += ['--replace-call-with-contract', r]
-            gi += ['--apply-loop-contracts', os.path.join(ud, 'h.gb'), os.path.join(ud, 'hi.gb')]
+            gi += ['--apply-loop-contracts', src_gb, os.path.join(ud, 'hi.gb')]
             rc, out, err, dt = sh(gi, timeout=600, mem_gb=16)
             if rc != 0: raise Undecided('goto-instrument failed for %s: %s' % (unit.name, (err + out)[-3000:]))
             open(os.path.join(ud, 'gi.log'), 'w').write(out + err)
@@ -655,7 +681,8 @@ def write_evidence(pid, tier, seed, prop, results, lemma_results, kf_active, fix
         fns.append({'unit': r['unit'], 'function': r['target'], 'c_name': r.get('cname'), 'source': r.get('source'), 'kind_mode': r['mode'],
                     'status': r['status'], 'obligations': r['obligations'], 'discharged': r['discharged'],
                     'backend': 'cbmc 6.11.0 --dfcc (SAT: minisat2 built in)', 'solver_seconds': r.get('solver_seconds'),
-                    'wall_seconds': r['seconds'], 'bounded': r['bounded'], 'clause': r.get('clause'), 'why': r.get('why')})
+                    'wall_seconds': r['seconds'], 'bounded': r['bounded'], 'clause': r.get('clause'), 'why': r.get('why'),
+                    'code_loops_unwound_completely': r.get('unwound_code_loops', [])})
     samples = []
     for r in results: samples += r.get('samples', [])[:2]
     ev = {
